@@ -38,10 +38,20 @@ type cloneChild struct {
 	cmd   *exec.Cmd
 	agent *exec.Cmd
 	errb  *bytes.Buffer
+	done  chan struct{}
+}
+
+func (cc *cloneChild) exited() bool {
+	select {
+	case <-cc.done:
+		return true
+	default:
+		return false
+	}
 }
 
 func startCloneChild(bin, dir, ip, cloneFrom, snap, frontend string, size int64, portLo, portHi int) (*cloneChild, error) {
-	cc := &cloneChild{errb: &bytes.Buffer{}}
+	cc := &cloneChild{errb: &bytes.Buffer{}, done: make(chan struct{})}
 	os.MkdirAll(dir, 0700)
 	cc.agent = exec.Command(bin, "sync-agent", "--listen", ip+":9504", "--listen-port-range", fmt.Sprintf("%d-%d", portLo, portHi))
 	cc.agent.Dir = dir
@@ -60,7 +70,7 @@ func startCloneChild(bin, dir, ip, cloneFrom, snap, frontend string, size int64,
 		cc.stop()
 		return nil, err
 	}
-	go cc.cmd.Wait()
+	go func() { cc.cmd.Wait(); close(cc.done) }()
 	return cc, nil
 }
 
@@ -273,7 +283,9 @@ func runCloneCase(cc CloneCase) (*Fail, []string, map[string]int, error) {
 			rwAt = time.Since(t0)
 			break
 		}
-		if strings.HasSuffix(status, "error") && cc.Pick < 0 {
+		if strings.HasSuffix(status, "error") && (cc.Pick < 0 || (cc.Interrupt == "" && child.exited())) {
+			// (for an existing snapshot: the clone process gave up and exited, no
+			// need to wait for the deadline)
 			finalErr = true
 			// give the controller time to drop it
 			time.Sleep(2500 * time.Millisecond)
@@ -327,7 +339,24 @@ func runCloneCase(cc CloneCase) (*Fail, []string, map[string]int, error) {
 		return nil, x.Trace, labels, nil
 	}
 	if rwAt == 0 {
-		return fail("clone|never-completed", fmt.Sprintf("the clone was not made RW within 60 s: %v\nchild stderr tail: %s", obs, tailStr(child.errb.String(), 1200)), "C19"), x.Trace, labels, nil
+		if finalErr {
+			// a failed clone is reported as an error instead of serving partial data
+			for _, r := range dst.C.ListReplicas() {
+				if r.Address == cloneAddr && r.Mode == types.RW {
+					return fail("clone|failed-clone-readable", "a failed clone is listed RW in the new volume", "C19"), x.Trace, labels, nil
+				}
+			}
+			if n, err := dst.C.ReadAt(readBuf[:Blk], 0); err == nil && n == Blk {
+				return fail("clone|failed-clone-served-read", "a read through the new volume succeeded although the clone failed", "C19"), x.Trace, labels, nil
+			}
+		}
+		var errLines []string
+		for _, l := range strings.Split(child.errb.String(), "\n") {
+			if strings.Contains(l, "level=error") || strings.Contains(l, "level=fatal") {
+				errLines = append(errLines, headStr(l, 300))
+			}
+		}
+		return fail("clone|never-completed", fmt.Sprintf("the clone was not made RW within 60 s: %v\nchild errors:\n%s\nchild stderr tail: %s", obs, strings.Join(tail(errLines, 12), "\n"), tailStr(child.errb.String(), 1200)), "C19"), x.Trace, labels, nil
 	}
 	labels["clone:completed"]++
 	// the clone holds exactly the snapshot image
@@ -390,6 +419,19 @@ func TestC19(t *testing.T) {
 		cb, _ := json.Marshal(cc)
 		fmt.Printf("C19CASE %s %s\n", time.Now().Format("15:04:05"), cb)
 		f, trace, labels, err := runCloneCase(cc)
+		// An undisturbed clone that ends in "error" without serving anything has
+		// kept the safety clauses; whether it should have completed is decided
+		// over three attempts, so that a transfer that timed out on a busy
+		// machine is not taken for a defect (a defect fails every attempt).
+		for attempt := 2; attempt <= 3 && err == nil && f != nil && f.Sig == "clone|never-completed"; attempt++ {
+			fmt.Printf("C19RETRY %d %s\n", attempt, headStr(f.Detail, 300))
+			var l2 map[string]int
+			f, trace, l2, err = runCloneCase(cc)
+			for k, v := range l2 {
+				labels[k] += v
+			}
+			labels["clone:retried-after-uninjected-failure"]++
+		}
 		fmt.Printf("C19DONE %s\n", time.Now().Format("15:04:05"))
 		if err != nil {
 			fatalf("HARNESS ERROR: %v", err)
